@@ -366,7 +366,7 @@ fn core(d: &Desc, ch: &mut Choices, st: &mut RStats, rp: &RealiseParams) -> Term
             }
             // massive duplication: a handful of distinct elements handed over dozens of times in one
             // step (constructor, one push_components call, or - through the text routes - one parse)
-            if rp.duplicates && !items.is_empty() && items.len() <= 6 && ch.chance(1, 30) {
+            if rp.duplicates && !items.is_empty() && items.len() <= 6 && kids.iter().all(|k| matches!(k, Desc::Atom(..) | Desc::Interval(_))) && ch.chance(1, 30) {
                 st.massive_duplicates += 1;
                 let total = [60usize, 130][ch.choose(2) as usize];
                 let base = items.len();
